@@ -69,7 +69,8 @@ def gen_case(rng, tier, focus):
             elif x < 0.70:
                 lines.append("unsub %d %d" % (ty, rng.randrange(4)))
             elif x < 0.75:
-                lines.append("clear %d" % ty)
+                # also a type nobody subscribed to that lives in the same registry shard (CT1 and CT36 collide)
+                lines.append("clear %d" % rng.choice([ty, 1, 2]))
             elif x < 0.82:
                 lines.append("cancel %d" % rng.randint(1, 2))
             elif x < 0.92:
